@@ -17,7 +17,7 @@ META = {
                    'the normalised view from an arbitrary state in both numeric flavours (python floats raise on /0, NumPy scalars '
                    'return inf/nan: the proxy numbers model both); base case: fresh tracker under every key-set history of length T.',
     'bounds': {'quick': {'keys': 'subsets of {a,b,c}', 'history_base_case': 'T=3 over {a,b}', 'flavours': 'py,np,mixed'},
-               'thorough': {'keys': 'subsets of {a,b,c}', 'history_base_case': 'T=4 over {a,b,c} subsets', 'flavours': 'py,np,mixed'}},
+               'thorough': {'keys': 'subsets of {a,b,c}', 'history_base_case': 'T=4 over {a,b,c} subsets, T=6 over {a,b}', 'flavours': 'py,np,mixed'}},
     'outside': ['non-numeric values', 'floating-point rounding (reals)', 'NumPy integer overflow'],
     'assumptions': ['python float / int: division by zero raises ZeroDivisionError; NumPy scalar: division by zero yields inf/nan '
                     '(flavour model, validated against real NumPy in the engine self-test)',
@@ -46,8 +46,8 @@ def configs(tier):
         if tier == 'quick':
             cfgs.append(dict(group='history', base=base, keys='ab', T=3, _cost=64))
         else:
-            cfgs.append(dict(group='history', base=base, keys='abc', T=3, _cost=512))
-            cfgs.append(dict(group='history', base=base, keys='ab', T=5, _cost=1024))
+            cfgs.append(dict(group='history', base=base, keys='abc', T=4, _cost=4096))
+            cfgs.append(dict(group='history', base=base, keys='ab', T=6, _cost=4096))
     return cfgs
 
 
